@@ -31,9 +31,37 @@ def run(ctx):
         "mismatch (payload byte flipped), and failed writes (RLIMIT_FSIZE set by the harness around the extraction: "
         "the kernel writes up to the limit, then EFBIG)",
     ]
+    ctx.modelled += [
+        "first clause (creates exactly what the archive records) is PROVED on the model for both loops: "
+        "C19.extract_reproduces (tar) and C19.extract_reproduces_zip (zip) — for a well-formed archive (every entry a "
+        "file/dir/symlink/hard link whose name cleans to a proper descendant of the root; no later entry equal to or an "
+        "ancestor of an earlier one; nothing beneath a non-directory entry; hard-link targets name earlier file/link "
+        "entries; payloads complete; symlink targets non-empty) extracted into an empty destination (an existing "
+        "directory, or missing with its existing ancestors real directories) the run is error-free and a path below the destination exists iff it is an entry path or an ancestor of one, with "
+        "the recorded type, masked mode, complete content, verbatim link target, shared inode for hard links, distinct "
+        "inodes for distinct regular entries; implied parents have the mode MkdirAll gave them (0o755&mask, or the "
+        "perm&mask of the first entry beneath them when that is a directory entry)",
+        "C19.extract_reproduces_distinct (tar, the former extract_reproduces_Statement, now a theorem): pairwise "
+        "distinct cleaned paths + error-free run into an empty/missing destination => every entry present as recorded, "
+        "any entry order and any type flags (C19.distinct_paths_fresh derives the semantic FreshRun condition of "
+        "extract_reproduces_partial from the syntactic one)",
+        "C19.extract_error_iff: either loop returns an error iff some entry's iteration fails on the tree its "
+        "predecessors left; C19.tarOne_error_iff / zipOne_error_iff / syscall_error_iff say exactly which iterations fail on "
+        "the modelled file system",
+        "C19.extract_nothing_else (both loops, EVERY archive, failing runs included): every node present afterwards was "
+        "present before unchanged or is at an entry's cleaned path or an ancestor of one",
+        "C19.zip_run_is_tar_run: an error-free zip run over file/dir/symlink entries is step for step the tar run, so "
+        "C19.extract_reproduces_distinct_zip carries the any-order theorem over to zip",
+        "NOT covered by the exactness theorems (correspondence run only): archives with skipped tar type flags "
+        "(fifo, devices) or a './' entry naming the destination itself, a destination that is not empty, archives "
+        "listing a directory after entries beneath it (there extract_reproduces_distinct applies: everything present "
+        "as recorded except that such a directory keeps the mode MkdirAll gave it; extract_nothing_else gives "
+        "exactness there)",
+    ]
     ctx.lean(props=["Props.C19"], drivers=["drv_c19"])
     ctx.harness("./cmd/c19")
     ctx.diff(area="extract", driver="drv_c19", n={"quick": 10000, "thorough": 150000},
              trivial=lambda l, o: " e:" not in l, tagger=_tag,
              theorem="C19.extract_contained / extract_wf / ensureNoSymlinks_spec / payload_error_propagates / "
-                     "extract_reproduces are about the model; impl != model on this archive")
+                     "extract_reproduces / extract_reproduces_zip / extract_error_iff are about the model; "
+                     "impl != model on this archive")
